@@ -905,4 +905,415 @@ theorem kymo_times_errors (r : List (Int × Int)) :
 example : kymoTimes [(10, 14), (30, 34), (50, 54)] = .ok (20, 4, 10) := by decide
 example : kymoTimes [(10, 14), (30, 34), (51, 55)] = .error .value := by decide
 
+
+/-! ## The headline clause on the pixel data: indexing the stack is NumPy indexing of `get_image()` -/
+
+/-- `stack[a:b:c, ra:rb, ca:cb].get_image()` (positive step or `None`, every bound possibly `None`/negative/out of range)
+    is exactly `stack.get_image()[a:b:c, ra:rb, ca:cb]` — the frames AND the pixels — for every reachable stack (any
+    step, any ROI inside the raw pages); the result is again a stack the theorem applies to (positive step, ROI inside);
+    the code raises (`ValueError` of the ROI or "Slice is empty") only if that NumPy result has no pixel. -/
+theorem getitem_image_refines {α} (s : Stack) (hst : 0 < s.st) (raw : Int → List (List α)) (H W : Nat)
+    (hraw : ∀ p, (raw p).length = H ∧ ∀ row ∈ raw p, row.length = W) (hr : s.roi.Within H W)
+    (a b c ra rb ca cb : Option Int) (hc : 0 < c.getD 1) :
+    match s.getitemTuple [.slice a b c, .slice ra rb none, .slice ca cb none] with
+    | .ok s' => s'.image raw = (pySliceStep (s.image raw) a b (c.getD 1).toNat).map (fun img => pySlice2 img ca cb ra rb) ∧
+        0 < s'.st ∧ s'.roi.Within H W
+    | .error e => (e = .value ∨ e = .empty) ∧
+        ((pySliceStep (s.image raw) a b (c.getD 1).toNat).map (fun img => pySlice2 img ca cb ra rb)).flatten.flatten = [] := by
+  rw [getitem_tuple_decomposes]
+  unfold Stack.cropPixels
+  have hroi := fun p => roi_crop_refines (raw p) H W (hraw p).1 (hraw p).2 s.roi hr ca cb ra rb
+  cases hcrop : s.roi.crop ca cb ra rb with
+  | error e =>
+    simp only [hcrop] at hroi
+    simp only [Except.map, Except.bind]
+    refine ⟨Or.inl (hroi 0).1, ?_⟩
+    unfold Stack.image
+    rw [pySliceStep_map, List.map_map]
+    rw [List.flatten_eq_nil_iff]
+    intro l hl
+    rw [List.mem_flatten] at hl
+    obtain ⟨img, himg, hl⟩ := hl
+    rw [List.mem_map] at himg
+    obtain ⟨p, _, rfl⟩ := himg
+    have := (hroi p).2
+    rw [List.flatten_eq_nil_iff] at this
+    exact this l hl
+  | ok r' =>
+    simp only [hcrop] at hroi
+    simp only [Except.map, Except.bind]
+    have hs := slice_refines { s with roi := r' } hst a b c hc
+    simp only [Stack.frameItem]
+    have hfr : Stack.frames { s with roi := r' } = s.frames := rfl
+    cases hsl : Stack.sliceFrames { s with roi := r' } a b c with
+    | error e =>
+      rw [hsl] at hs
+      simp only
+      refine ⟨Or.inr hs.1, ?_⟩
+      unfold Stack.image
+      have h2 := hs.2
+      rw [hfr] at h2
+      rw [pySliceStep_map, h2]
+      rfl
+    | ok s' =>
+      rw [hsl] at hs
+      simp only
+      obtain ⟨hf, _, hst', hroi'⟩ := hs
+      refine ⟨?_, hst', ?_⟩
+      · unfold Stack.image
+        rw [pySliceStep_map, List.map_map, hf, hfr, hroi']
+        apply List.map_congr_left
+        intro p _
+        exact (hroi p).1
+      · rw [hroi']; exact (hroi 0).2
+
+/-- Non-vacuity: the synthetic pages of the harness meet the hypothesis on `raw`, and a stepped, cropped selection succeeds. -/
+example : ∀ p, (encPage 4 5 1 0 p).length = 4 ∧ ∀ row ∈ encPage 4 5 1 0 p, row.length = 5 := by
+  intro p; simp [encPage]
+example : Stack.getitemTuple ⟨0, 6, 1, ⟨0, 5, 0, 4⟩⟩ [.slice (some 1) none (some 2), .slice (some 1) (some 3) none,
+    .slice none (some (-1)) none] = .ok ⟨1, 6, 2, ⟨0, 4, 1, 3⟩⟩ := by decide
+
+/-- `shape`: `get_image()` has `num_frames` frames of `roi.height` rows of `roi.width` pixels. -/
+theorem image_shape {α} (s : Stack) (hst : 0 < s.st) (raw : Int → List (List α)) (H W : Nat)
+    (hraw : ∀ p, (raw p).length = H ∧ ∀ row ∈ raw p, row.length = W) (hr : s.roi.Within H W) :
+    ((s.image raw).length : Int) = s.shape.1 ∧
+      ∀ img ∈ s.image raw, (img.length : Int) = s.shape.2.1 ∧ ∀ row ∈ img, (row.length : Int) = s.shape.2.2 := by
+  unfold Stack.image Stack.shape
+  refine ⟨by rw [List.length_map]; exact (num_frames_eq_length s hst).symm, ?_⟩
+  intro img himg
+  rw [List.mem_map] at himg
+  obtain ⟨p, _, rfl⟩ := himg
+  exact roi_apply_shape (raw p) H W (hraw p).1 (hraw p).2 s.roi hr
+
+theorem index_image_refines {α} (s : Stack) (hst : 0 < s.st) (raw : Int → List (List α)) (i : Int) :
+    match s.index i, pyIndex (s.image raw) i with
+    | .ok s', some img => s'.image raw = [img]
+    | .error e, none => e = .index
+    | _, _ => False := by
+  have h := index_refines s hst i
+  unfold Stack.image
+  rw [pyIndex_map]
+  cases hi : s.index i with
+  | error e =>
+    rw [hi] at h
+    cases hp : pyIndex s.frames i with
+    | none => rw [hp] at h; simpa using h
+    | some p => rw [hp] at h; exact h.elim
+  | ok s' =>
+    rw [hi] at h
+    cases hp : pyIndex s.frames i with
+    | none => rw [hp] at h; exact h.elim
+    | some p =>
+      rw [hp] at h
+      simp only [Option.map_some]
+      rw [h.1, h.2.2]; rfl
+
+example : Stack.shape ⟨1, 6, 2, ⟨0, 4, 1, 3⟩⟩ = (3, 2, 4) := by decide
+
+/-! ## Per-frame timestamps follow the frames -/
+
+/-- `ImageStack(...)` shows pages of its file(s) only — the hypothesis `Paged` of the theorems below; frame selection
+    and cropping preserve it (conclusions of `ranges_slice_refines`, `ranges_index_refines`, `crop_preserves_ranges`). -/
+theorem fresh_paged (pages : List Page) (roi : Roi) : Stack.Paged ⟨0, pages.length, 1, roi⟩ pages := by
+  intro p hp
+  have := (mem_frames_iff ⟨0, pages.length, 1, roi⟩ (by show (0 : Int) < 1; omega) p).mp hp
+  simp only at this
+  omega
+
+theorem ranges_slice_refines (s s' : Stack) (hst : 0 < s.st) (pages : List Page) (hp : s.Paged pages)
+    (a b c : Option Int) (hc : 0 < c.getD 1) (h : s.sliceFrames a b c = .ok s') (dead : Bool) :
+    ∃ r, s.ranges pages dead false = some r ∧
+      s'.ranges pages dead false = some (pySliceStep r a b (c.getD 1).toNat) ∧ s'.Paged pages := by
+  have hs := slice_refines s hst a b c hc
+  rw [h] at hs
+  have hp' : s'.Paged pages := by
+    intro p hpm
+    rw [hs.1] at hpm
+    exact hp p (mem_pySliceStep hpm)
+  refine ⟨_, ranges_eq_map s pages hp dead, ?_, hp'⟩
+  rw [ranges_eq_map s' pages hp' dead, hs.1, pySliceStep_map]
+
+theorem ranges_index_refines (s s' : Stack) (hst : 0 < s.st) (pages : List Page) (hp : s.Paged pages)
+    (i : Int) (h : s.index i = .ok s') (dead : Bool) :
+    ∃ r x, s.ranges pages dead false = some r ∧ pyIndex r i = some x ∧
+      s'.ranges pages dead false = some [x] ∧ s'.Paged pages := by
+  have hs := index_refines s hst i
+  rw [h] at hs
+  cases hpi : pyIndex s.frames i with
+  | none => rw [hpi] at hs; exact hs.elim
+  | some p =>
+    rw [hpi] at hs
+    have hmem : p ∈ s.frames := by
+      unfold pyIndex at hpi
+      split at hpi
+      · split at hpi
+        · cases hpi
+        · exact List.mem_of_getElem? hpi
+      · exact List.mem_of_getElem? hpi
+    have hp' : s'.Paged pages := by
+      intro q hq
+      rw [hs.1, List.mem_singleton] at hq
+      subst hq
+      exact hp _ hmem
+    refine ⟨_, pageRange pages dead p, ranges_eq_map s pages hp dead, ?_, ?_, hp'⟩
+    · rw [pyIndex_map, hpi]; rfl
+    · rw [ranges_eq_map s' pages hp' dead, hs.1]; rfl
+
+theorem crop_preserves_ranges (s s' : Stack) (pages : List Page) (x0 x1 y0 y1 : Option Int)
+    (h : s.cropPixels x0 x1 y0 y1 = .ok s') (dead legacy : Bool) :
+    s'.ranges pages dead legacy = s.ranges pages dead legacy ∧ s'.start pages = s.start pages ∧
+      s'.stop pages = s.stop pages ∧ s'.shape.1 = s.shape.1 ∧ (s.Paged pages → s'.Paged pages) := by
+  have hf := crop_preserves_frames s s' x0 x1 y0 y1 h
+  unfold Stack.ranges Stack.start Stack.stop Stack.shape Stack.numFrames Stack.Paged
+  rw [hf.1, hf.2.1, hf.2.2.1, hf.2.2.2]
+  exact ⟨rfl, rfl, rfl, rfl, id⟩
+
+theorem start_stop_refine (s : Stack) (pages : List Page) (hp : s.Paged pages) :
+    ∃ r, s.ranges pages false false = some r ∧ s.start pages = r.head?.map (·.1) ∧
+      s.stop pages = r.getLast?.map (·.2) := by
+  refine ⟨_, ranges_eq_map s pages hp false, ?_, ?_⟩
+  · unfold Stack.start
+    cases hfr : s.frames with
+    | nil => rfl
+    | cons p ps =>
+      obtain ⟨h0, h1⟩ := hp p (by rw [hfr]; simp)
+      simp only [List.head?_cons, Option.bind_some, List.map_cons, Option.map_some, pageRange]
+      unfold pageAt
+      rw [if_neg (by omega), List.getElem?_eq_getElem (by omega)]
+      rfl
+  · unfold Stack.stop
+    rw [List.getLast?_map]
+    cases hl : s.frames.getLast? with
+    | none => rfl
+    | some p =>
+      obtain ⟨h0, h1⟩ := hp p (List.mem_of_getLast? hl)
+      simp only [Option.bind_some, Option.map_some, pageRange]
+      unfold pageAt
+      rw [if_neg (by omega), List.getElem?_eq_getElem (by omega)]
+      rfl
+
+
+theorem ranges_sorted (s : Stack) (hst : 0 < s.st) (pages : List Page) (hp : s.Paged pages)
+    (hsorted : pages.Pairwise (fun x y => x.start ≤ y.start ∧ x.expStop ≤ y.expStop)) :
+    (s.frames.map (pageRange pages false)).Pairwise (fun x y => x.1 ≤ y.1 ∧ x.2 ≤ y.2) := by
+  rw [List.pairwise_map]
+  refine List.Pairwise.imp_of_mem ?_ (frames_strictly_increasing s hst)
+  intro p q hpm hqm hpq
+  obtain ⟨p0, p1⟩ := hp p hpm
+  obtain ⟨q0, q1⟩ := hp q hqm
+  have hlt : p.toNat < q.toNat := by omega
+  have := (List.pairwise_iff_getElem.mp hsorted) p.toNat q.toNat (by omega) (by omega) hlt
+  unfold pageRange pageAt
+  rw [if_neg (by omega), if_neg (by omega), List.getElem?_eq_getElem (by omega), List.getElem?_eq_getElem (by omega)]
+  exact this
+
+theorem slice_time_refines (s : Stack) (hst : 0 < s.st) (pages : List Page) (hp : s.Paged pages)
+    (hsorted : pages.Pairwise (fun x y => x.start ≤ y.start ∧ x.expStop ≤ y.expStop))
+    (ta tb : Int) (ha : firstTimestamp ≤ ta) (hb : firstTimestamp ≤ tb) :
+    ∃ r, s.ranges pages false false = some r ∧
+      match s.sliceTime pages (.int ta) (.int tb) none with
+      | some (.ok s') =>
+        s'.ranges pages false false = some (r.filter fun x => decide (ta ≤ x.1) && decide (x.2 < tb)) ∧
+          s'.Paged pages ∧ 0 < s'.st ∧ s'.roi = s.roi
+      | some (.error e) => e = .empty ∧ (r.filter fun x => decide (ta ≤ x.1) && decide (x.2 < tb)) = []
+      | none => False := by
+  have hr := ranges_eq_map s pages hp false
+  refine ⟨_, hr, ?_⟩
+  have hso := ranges_sorted s hst pages hp hsorted
+  generalize hrdef : s.frames.map (pageRange pages false) = r at *
+  have hwin := time_window_refines r (hso.imp fun h => h.1) (hso.imp fun h => h.2) ta tb
+  have key : ∀ A B, pySliceStep r A B 1 = (pySliceStep s.frames A B 1).map (pageRange pages false) := by
+    intro A B; rw [← hrdef, pySliceStep_map]
+  unfold Stack.sliceTime Stack.timeToIndex
+  simp only [Option.bind_eq_bind, Option.bind_some, hr, if_neg (by omega : ¬ ta < firstTimestamp),
+    if_neg (by omega : ¬ tb < firstTimestamp), if_true, Bool.false_eq_true, if_false]
+  have hs := slice_refines s hst (some ((searchsortedLeft (r.map (·.1)) ta : Nat) : Int))
+    (some ((searchsortedLeft (r.map (·.2)) tb : Nat) : Int)) none (by simp)
+  simp only [Option.getD_none, Int.toNat_one] at hs
+  cases hsl : s.sliceFrames (some ((searchsortedLeft (r.map (·.1)) ta : Nat) : Int))
+      (some ((searchsortedLeft (r.map (·.2)) tb : Nat) : Int)) none with
+  | error e =>
+    rw [hsl] at hs
+    simp only
+    refine ⟨hs.1, ?_⟩
+    rw [← hwin, ← pySliceStep_one, key, hs.2]; rfl
+  | ok s' =>
+    rw [hsl] at hs
+    simp only
+    obtain ⟨hf, _, hst', hroi'⟩ := hs
+    have hp' : s'.Paged pages := by
+      intro p hpm
+      rw [hf] at hpm
+      exact hp p (mem_pySliceStep hpm)
+    refine ⟨?_, hp', hst', hroi'⟩
+    rw [ranges_eq_map s' pages hp' false, hf, ← key, pySliceStep_one, hwin]
+
+/-- Non-vacuity of `slice_time_refines`: three pages 0.1 s apart, exposure 40 ms; `stack[t0+50ms : t0+250ms]` keeps the
+    second frame only (the third one's exposure ends after the upper bound). -/
+example : (Stack.sliceTime ⟨0, 3, 1, ⟨0, 5, 0, 4⟩⟩
+    [⟨1600000000000000000, 1600000000100000000, 1600000000040000000⟩,
+     ⟨1600000000100000000, 1600000000200000000, 1600000000140000000⟩,
+     ⟨1600000000200000000, 1600000000300000000, 1600000000240000000⟩]
+    (.int 1600000000050000000) (.int 1600000000240000000) none).map (·.toOption.map Stack.frames) = some (some [1]) := by
+  decide
+example : List.Pairwise (fun (x y : Page) => x.start ≤ y.start ∧ x.expStop ≤ y.expStop)
+    [⟨10, 20, 14⟩, ⟨20, 30, 24⟩, ⟨30, 40, 34⟩] := by decide
+
+/-- the three kinds of bound of a frame slice: `None`; an integer below 2014-01-01 in ns is a frame index; a time
+    string is an offset from the stack's start (`≥ 0`) or stop (`< 0`) -/
+theorem time_bound_cases (s : Stack) (pages : List Page) (isStart : Bool) (v ns t0 : Int) :
+    s.timeToIndex pages isStart .none = some none ∧
+    (v < firstTimestamp → s.timeToIndex pages isStart (.int v) = some (some v)) ∧
+    ((if ns ≥ 0 then s.start pages else s.stop pages) = some t0 →
+      s.timeToIndex pages isStart (.rel ns) = s.timeToIndex pages isStart (.int (t0 + ns))) := by
+  refine ⟨by unfold Stack.timeToIndex; rfl, ?_, ?_⟩
+  · intro hv
+    unfold Stack.timeToIndex
+    simp only [Option.bind_eq_bind, Option.bind_some, if_pos hv]
+  · intro h
+    unfold Stack.timeToIndex
+    by_cases hn : ns ≥ 0
+    · rw [if_pos hn] at h
+      simp only [Option.bind_eq_bind, if_pos hn, h, Option.map_some, Option.bind_some]
+    · rw [if_neg hn] at h
+      simp only [Option.bind_eq_bind, if_neg hn, h, Option.map_some, Option.bind_some]
+
+/-! ## Index tuples of every shape -/
+
+/-- cropping with all bounds `None` is the identity -/
+theorem crop_none_id (s : Stack) (H W : Nat) (hr : s.roi.Within H W) :
+    s.cropPixels none none none none = .ok s := by
+  obtain ⟨hx0, hx01, hx1, hy0, hy01, hy1⟩ := hr
+  unfold Stack.cropPixels Roi.crop Roi.make Roi.width Roi.height
+  simp only
+  rw [cropBound_none _ _ (by omega) (by omega), cropBound_none _ _ (by omega) (by omega),
+    cropBound_none _ _ (by omega) (by omega), cropBound_none _ _ (by omega) (by omega)]
+  rw [if_neg (by omega), if_neg (by omega)]
+  simp only [Except.map]
+  have e2 : s.roi.xMax - s.roi.xMin + s.roi.xMin = s.roi.xMax := by omega
+  have e4 : s.roi.yMax - s.roi.yMin + s.roi.yMin = s.roi.yMax := by omega
+  rw [e2, e4, Int.zero_add, Int.zero_add]
+
+/-- every shape of index tuple: one to three entries are crop-then-select with `None` for the missing spatial
+    entries, an integer in a spatial position is the one-pixel slice `i:i+1`, a spatial slice with a step and a
+    fourth entry are `IndexError`s. -/
+theorem getitem_tuple_cases (s : Stack) (f : Item) (rest : List Item) :
+    s.getitemTuple (f :: rest) =
+      match rest with
+      | [] => (s.cropPixels none none none none).bind (·.frameItem f)
+      | [r] => (interpretCrop r).bind fun rows => (s.cropPixels none none rows.1 rows.2).bind (·.frameItem f)
+      | [r, c] => (interpretCrop r).bind fun rows => (interpretCrop c).bind fun cols =>
+          (s.cropPixels cols.1 cols.2 rows.1 rows.2).bind (·.frameItem f)
+      | _ => .error .index := by
+  have key : ∀ (ra rb ca cb : Option Int),
+      (do let r ← s.roi.crop ca cb ra rb; let t ← s.frameItem f; pure ({ t with roi := r } : Stack)) =
+        (s.cropPixels ca cb ra rb).bind (·.frameItem f) := by
+    intro ra rb ca cb
+    unfold Stack.cropPixels
+    cases hr : s.roi.crop ca cb ra rb with
+    | error e => rfl
+    | ok r =>
+      simp only [bind, Except.bind, Except.map, pure, Except.pure]
+      rw [frameItem_roi_indep s r f]
+      cases s.frameItem f <;> rfl
+  match rest with
+  | [] => exact key none none none none
+  | [r] =>
+    unfold Stack.getitemTuple
+    simp only [List.length_cons, List.length_nil]
+    rw [if_neg (by omega)]
+    cases hi : interpretCrop r with
+    | error e => simp [hi, bind, Except.bind]
+    | ok rows =>
+      have := key rows.1 rows.2 none none
+      simp only [List.getElem?_cons_zero, List.getElem?_cons_succ, List.getElem?_nil, hi, bind, Except.bind, pure, Except.pure] at this ⊢
+      exact this
+  | [r, c] =>
+    unfold Stack.getitemTuple
+    simp only [List.length_cons, List.length_nil]
+    rw [if_neg (by omega)]
+    cases hi : interpretCrop r with
+    | error e => simp [hi, bind, Except.bind]
+    | ok rows =>
+      cases hj : interpretCrop c with
+      | error e => simp [hi, hj, bind, Except.bind]
+      | ok cols =>
+        have := key rows.1 rows.2 cols.1 cols.2
+        simp only [List.getElem?_cons_zero, List.getElem?_cons_succ, hi, hj, bind, Except.bind, pure, Except.pure] at this ⊢
+        exact this
+  | _ :: _ :: _ :: _ =>
+    unfold Stack.getitemTuple
+    simp only [List.length_cons]
+    rw [if_pos (by omega)]
+
+theorem interpret_crop_cases (i : Int) (a b : Option Int) (c : Int) :
+    interpretCrop (.int i) = .ok (some i, some (i + 1)) ∧ interpretCrop (.slice a b none) = .ok (a, b) ∧
+      interpretCrop (.slice a b (some c)) = .error .index := ⟨rfl, rfl, rfl⟩
+
+
+/-! ## Re-defining a tether on a stack that has one (at `ℝ`) -/
+
+/-- `define_tether` on an already rotated (and cropped) stack: the two chosen points of the CURRENT image are again
+    mapped onto a horizontal left-to-right line whose length is their distance (the old rotation is undone first,
+    `TiffStack.with_tether`). -/
+theorem retether_horizontal_length (t : Tether ℝ) (e : Pt ℝ × Pt ℝ) (he : t.ends = some e)
+    (h : e.1.x ≠ e.2.x ∨ e.1.y ≠ e.2.y) (p q : Pt ℝ) (hpq : p.x ≠ q.x ∨ p.y ≠ q.y) :
+    ∃ a b, (t.withTether p q).endsProcessed = some (a, b) ∧ a.y = b.y ∧ a.x < b.x ∧
+      b.x - a.x = Real.sqrt ((q.x - p.x) * (q.x - p.x) + (q.y - p.y) * (q.y - p.y)) := by
+  obtain ⟨he', hox, hoy⟩ := withTether_ends t e he p q
+  have hcs := cos_sq_add_sin_sq e h
+  generalize he'def : (unrotate e ⟨p.x + t.offX, p.y + t.offY⟩, unrotate e ⟨q.x + t.offX, q.y + t.offY⟩) = e' at he'
+  have hdx : e'.2.x - e'.1.x = tCos e * (q.x - p.x) - tSin e * (q.y - p.y) := by
+    rw [← he'def]; simp only [unrotate]; ring
+  have hdy : e'.2.y - e'.1.y = tSin e * (q.x - p.x) + tCos e * (q.y - p.y) := by
+    rw [← he'def]; simp only [unrotate]; ring
+  have hnorm : (e'.2.x - e'.1.x) * (e'.2.x - e'.1.x) + (e'.2.y - e'.1.y) * (e'.2.y - e'.1.y) =
+      (q.x - p.x) * (q.x - p.x) + (q.y - p.y) * (q.y - p.y) := by
+    rw [hdx, hdy]
+    linear_combination ((q.x - p.x) * (q.x - p.x) + (q.y - p.y) * (q.y - p.y)) * hcs
+  have hposq : 0 < (q.x - p.x) * (q.x - p.x) + (q.y - p.y) * (q.y - p.y) := by
+    rcases hpq with h1 | h1
+    · have : q.x - p.x ≠ 0 := sub_ne_zero.mpr (Ne.symm h1)
+      nlinarith [mul_self_pos.mpr this, mul_self_nonneg (q.y - p.y)]
+    · have : q.y - p.y ≠ 0 := sub_ne_zero.mpr (Ne.symm h1)
+      nlinarith [mul_self_pos.mpr this, mul_self_nonneg (q.x - p.x)]
+  have h' : e'.1.x ≠ e'.2.x ∨ e'.1.y ≠ e'.2.y := by
+    by_contra hc
+    rw [not_or, not_not, not_not] at hc
+    have : (e'.2.x - e'.1.x) * (e'.2.x - e'.1.x) + (e'.2.y - e'.1.y) * (e'.2.y - e'.1.y) = 0 := by
+      rw [hc.1, hc.2]; ring
+    rw [hnorm] at this
+    linarith
+  obtain ⟨a, b, hab, hax, hay, hbx, hby⟩ := ends_processed _ e' he' h'
+  have hL : tLen e' = Real.sqrt ((q.x - p.x) * (q.x - p.x) + (q.y - p.y) * (q.y - p.y)) := by
+    unfold tLen; rw [hnorm]; rfl
+  have hpos := tLen_pos e' h'
+  refine ⟨a, b, hab, by rw [hay, hby], by rw [hax, hbx]; linarith, ?_⟩
+  rw [hax, hbx, ← hL]; ring
+
+/-- choosing the new tether through the points where the current image shows the content of raw points `r₁`, `r₂`:
+    that content is shown exactly at the ends of the new tether -/
+theorem retether_maps_content (t : Tether ℝ) (e : Pt ℝ × Pt ℝ) (he : t.ends = some e)
+    (h : e.1.x ≠ e.2.x ∨ e.1.y ≠ e.2.y) (alignInv : Option (Aff ℝ)) (r₁ r₂ : Pt ℝ) :
+    (t.withTether (t.land alignInv r₁) (t.land alignInv r₂)).endsProcessed =
+      some ((t.withTether (t.land alignInv r₁) (t.land alignInv r₂)).land alignInv r₁,
+            (t.withTether (t.land alignInv r₁) (t.land alignInv r₂)).land alignInv r₂) := by
+  obtain ⟨he', _, _⟩ := withTether_ends t e he (t.land alignInv r₁) (t.land alignInv r₂)
+  have hback : ∀ r : Pt ℝ, unrotate e ⟨(t.land alignInv r).x + t.offX, (t.land alignInv r).y + t.offY⟩ =
+      shownAt alignInv r := by
+    intro r
+    have : (⟨(t.land alignInv r).x + t.offX, (t.land alignInv r).y + t.offY⟩ : Pt ℝ) = rotate e (shownAt alignInv r) := by
+      rw [← frameMatrix_apply t e he alignInv r]
+      cases hm : (t.frameMatrix alignInv).apply r with
+      | mk ax ay =>
+        simp only [Tether.land, hm]
+        congr 1 <;> ring
+    rw [this, unrotate_rotate e h]
+  rw [hback, hback] at he'
+  exact tether_maps_chosen_points _ _ he' alignInv r₁ r₂ rfl rfl
+
+example : ∃ a b, ((⟨1, 2, some (⟨1, 2⟩, ⟨4, 6⟩)⟩ : Tether ℝ).withTether ⟨0, 0⟩ ⟨0, 2⟩).endsProcessed = some (a, b) ∧
+    a.y = b.y ∧ a.x < b.x ∧ b.x - a.x = Real.sqrt ((0 - 0) * (0 - 0) + (2 - 0) * (2 - 0)) :=
+  retether_horizontal_length _ (⟨1, 2⟩, ⟨4, 6⟩) rfl (Or.inl (by norm_num)) ⟨0, 0⟩ ⟨0, 2⟩ (Or.inr (by norm_num))
+
 end Verif.C07
